@@ -416,6 +416,19 @@ func (s *Sim) HookAcquire(key any, point string) {
 	t.park(point)
 }
 
+// LocksOwnedBy names the simulated locks task t currently owns.
+func (s *Sim) LocksOwnedBy(t *Task) []string {
+	s.mu.Lock()
+	defer s.mu.Unlock()
+	var out []string
+	for _, l := range s.lockOrder {
+		if l.Owner == t {
+			out = append(out, l.Name)
+		}
+	}
+	return out
+}
+
 func (s *Sim) deadlockProp() string {
 	if s.Cfg.DeadlockProp != "" {
 		return s.Cfg.DeadlockProp
